@@ -81,6 +81,7 @@ type Ctx struct {
 	Notes       map[string]interface{}
 	deadline    time.Time
 	expired     bool
+	setCapNoted bool
 	tick        int
 	trace       *os.File
 	mu          sync.Mutex
@@ -143,8 +144,21 @@ func (c *Ctx) Own(key ...[]byte) bool {
 		c.Skipped++
 		return false
 	}
-	c.seen[h] = struct{}{}
+	c.remember(h)
 	return true
+}
+
+// setCap bounds the memory of the de-duplication sets: beyond it new cases are no longer remembered (they
+// are still executed and counted; duplicates, rare by construction of the enumerations, may then be counted twice).
+const setCap = 6000000
+
+func (c *Ctx) remember(h [2]uint64) {
+	if len(c.seen) < setCap {
+		c.seen[h] = struct{}{}
+	} else if !c.setCapNoted {
+		c.setCapNoted = true
+		c.Notes["dedup_set_capped"] = "duplicate detection limited to the first 6M cases per shard (memory bound); later duplicates may be counted twice"
+	}
 }
 
 // OwnHash is Own for a pre-computed hash.
@@ -156,7 +170,7 @@ func (c *Ctx) OwnHash(h [2]uint64) bool {
 		c.Skipped++
 		return false
 	}
-	c.seen[h] = struct{}{}
+	c.remember(h)
 	return true
 }
 
@@ -165,6 +179,10 @@ func (c *Ctx) Eval() { c.Evals++ }
 
 // Nontrivial records a distinct non-trivial case (by key).
 func (c *Ctx) Nontrivial(key ...[]byte) {
+	if len(c.nontrivial) >= setCap {
+		c.NontrivialN++ // beyond the cap: counted without the set (cases are already de-duplicated by Own)
+		return
+	}
 	h := Hash128(key...)[1]
 	if _, ok := c.nontrivial[h]; !ok {
 		c.nontrivial[h] = struct{}{}
@@ -546,7 +564,9 @@ func Main(ck *Check, tier string) int {
 				cmd.Env = os.Environ()
 				err := cmd.Run()
 				ee, isExit := err.(*exec.ExitError)
-				if !(isExit && ee.ExitCode() == 1) {
+				// exit 1 = violates; exit 3 = the replay did not return within two minutes, which confirms a
+				// violation only for the property that is about returning promptly
+				if !(isExit && (ee.ExitCode() == 1 || (ee.ExitCode() == 3 && ck.ID == "C14"))) {
 					okAll = false
 					break
 				}
@@ -751,9 +771,18 @@ func Confirm(ck *Check, path string) int {
 	if err != nil || ck.Replay == nil {
 		return 2
 	}
-	bad, _ := safeReplay(ck, b)
-	if bad {
-		return 1
+	done := make(chan bool, 1)
+	go func() {
+		bad, _ := safeReplay(ck, b)
+		done <- bad
+	}()
+	select {
+	case bad := <-done:
+		if bad {
+			return 1
+		}
+		return 0
+	case <-time.After(120 * time.Second):
+		return 3 // the replay did not return
 	}
-	return 0
 }
